@@ -682,7 +682,8 @@ EXPECT = ["C14.states.every_call_returns_a_state_not_returned_before", "C14.Cant
           "C14.RosenbergStrong.proj_pair", "C14.RosenbergStrong.pair_proj", "C14.PepisKalmar.proj_pair", "C14.PepisKalmar.pair_proj",
           "C14.fold.proj_map", "C14.fold.map_proj", "C14.lazy_product.injective", "C14.states.returns_state_of_index",
           "C14.PairingToZ1d.natural.pair_project", "C14.ieee.floor_sqrt_is_isqrt",
-          "C14.sampler.draw_returns_the_state_at_its_position_in_the_enumeration", "C14.sampler.no_state_logged_twice"]
+          "C14.sampler.draw_returns_the_state_at_its_position_in_the_enumeration", "C14.sampler.no_state_logged_twice",
+          "C14.PairingToZ1d.pair_injective"]
 
 
 def main(tier):
